@@ -1,6 +1,6 @@
 (* C19: the monitor (and the diff) accept every run of the model. *)
 From SC Require Import Lib.Prelude Lib.Int Lib.Host Model.FeeForwarder Proofs.FeeForwarder
-  Run.C19 Proofs.FeeForwarderAllow Proofs.FeeForwarderFwd.
+  Run.C19 Proofs.FeeForwarderAllow Proofs.FeeForwarderFwd Proofs.C19AuthTree.
 
 (* ---- reflexivity of the observation equalities ---- *)
 Lemma zz_eqb_refl x : zz_eqb x x = true.
@@ -94,6 +94,15 @@ Proof.
   rewrite (list_eqb_refl _ bool_eqb_refl). reflexivity.
 Qed.
 
+Lemma shape_ok_model c st : shape_ok c (observe c st) = true.
+Proof.
+  unfold shape_ok, observe. cbn [o_toks o_logs]. rewrite !map_length, !Nat.eqb_refl. cbn [andb]. rewrite andb_true_r.
+  apply forallb_forall. intros t Ht. apply in_map_iff in Ht. destruct Ht as [tok [<- _]].
+  unfold observe_tok. cbn [ob_bal ob_alw]. rewrite !map_length, !Nat.eqb_refl. cbn [andb].
+  apply forallb_forall. intros r Hr. apply in_map_iff in Hr. destruct Hr as [o [<- _]].
+  rewrite map_length. apply Nat.eqb_refl.
+Qed.
+
 (* ---- the allow-list observation is consistent with the abstract set ---- *)
 Lemma memb_strip_enum a t :
   al_wf a -> memb t (strip (enumeration a)) = true <-> alist_get t (al_idx a) <> None.
@@ -102,7 +111,8 @@ Proof. intros W. rewrite memb_In. apply enumeration_In. exact W. Qed.
 Lemma al_consistent_model c st S :
   al_wf (al st) -> al_set (al st) S -> al_consistent c S (observe c st) = true.
 Proof.
-  intros W HS. unfold al_consistent, observe. cbn [o_count o_enum o_past o_idx o_allowed o_flcount o_exec o_mgr].
+  intros W HS. unfold al_consistent. rewrite shape_ok_model. cbn [andb].
+  unfold observe. cbn [o_count o_enum o_past o_idx o_allowed o_flcount o_exec o_mgr].
   rewrite !(list_eqb_refl _ bool_eqb_refl), !andb_true_r.
   set (a := al st) in *.
   assert (H1 : N.eqb (al_count a) (N.of_nat (length (enumeration a))) = true).
@@ -178,17 +188,40 @@ Lemma andb_intro (a b : bool) : a = true -> b = true -> a && b = true.
 Proof. intros -> ->. reflexivity. Qed.
 Ltac split_and := repeat match goal with |- (_ && _) = true => apply andb_intro end.
 
-Lemma mon_forward_model c st st' k tok fee max exp target fn args user relayer au ret :
-  forward_post c st st' k tok fee max exp target fn args user relayer au ret ->
+Lemma approve_under_tree_of_ex au user relayer f1 f2 ap :
+  (exists e, In e au /\ en_who e = user /\ In ap (en_subs e) /\
+             (en_root e = f2 \/ (user = relayer /\ en_root e = f1))) ->
+  approve_under_tree au user relayer f1 f2 ap = true.
+Proof.
+  intros [e [Hi [Hw [Hs Hr]]]]. unfold approve_under_tree. apply existsb_exists. exists e. split; [exact Hi|].
+  apply andb_intro; [apply andb_intro|].
+  - apply N.eqb_eq. exact Hw.
+  - apply existsb_exists. exists ap. split; [exact Hs|apply func_eqb_eq; reflexivity].
+  - destruct Hr as [Hr|[Hu Hr]].
+    + assert (E : func_eqb (en_root e) f2 = true) by (apply func_eqb_eq; exact Hr). rewrite E. reflexivity.
+    + assert (E : func_eqb (en_root e) f1 = true) by (apply func_eqb_eq; exact Hr).
+      assert (E2 : N.eqb user relayer = true) by (apply N.eqb_eq; exact Hu). rewrite E, E2. apply orb_true_r.
+Qed.
+
+Lemma mon_forward_model c st st' k tok fee max exp target fn args user relayer au ret t1 :
+  forward_post c st st' k tok fee max exp target fn args user relayer au ret t1 ->
   al_wf (al st) ->
+  (fee_need (approval_of k) max (allowance_data (now st) (get_tok st tok) user (fwd_addr c k)) = true ->
+   approve_under_tree au user relayer
+     (mkf (fwd_addr c k) F_FORWARD (forward_args tok fee max exp target fn args user relayer))
+     (mkf (fwd_addr c k) F_FORWARD (user_args tok max exp target fn args))
+     (mkf tok F_APPROVE (approve_args user (fwd_addr c k) max exp)) = true) ->
   mon_forward c (observe c st) (observe c st') k tok fee max exp target fn args user relayer au ret = true.
 Proof.
-  intros P W. pose proof (fp_collect _ _ _ _ _ _ _ _ _ _ _ _ _ _ _ P) as C.
-  unfold mon_forward.
+  intros P W Htree. pose proof (fp_pre _ _ _ _ _ _ _ _ _ _ _ _ _ _ _ _ P) as Q.
+  pose proof (fq_collect _ _ _ _ _ _ _ _ _ _ _ _ _ _ Q) as C.
+  pose proof (fp_tpost _ _ _ _ _ _ _ _ _ _ _ _ _ _ _ _ P) as TP.
+  pose proof (fp_target _ _ _ _ _ _ _ _ _ _ _ _ _ _ _ _ P) as TL.
+  unfold mon_forward. cbv zeta.
   split_and.
-  - exact (fp_user_auth _ _ _ _ _ _ _ _ _ _ _ _ _ _ _ P).
-  - exact (fp_relayer_auth _ _ _ _ _ _ _ _ _ _ _ _ _ _ _ P).
-  - pose proof (fp_role _ _ _ _ _ _ _ _ _ _ _ _ _ _ _ P) as R. destruct k; [exact R|reflexivity].
+  - exact (fq_user_auth _ _ _ _ _ _ _ _ _ _ _ _ _ _ Q).
+  - exact (fq_relayer_auth _ _ _ _ _ _ _ _ _ _ _ _ _ _ Q).
+  - pose proof (fq_role _ _ _ _ _ _ _ _ _ _ _ _ _ _ Q) as R. destruct k; [exact R|reflexivity].
   - apply Z.ltb_lt. apply (cp_fee _ _ _ _ _ _ _ _ _ _ _ _ _ _ C).
   - apply Z.leb_le. apply (cp_fee _ _ _ _ _ _ _ _ _ _ _ _ _ _ C).
   - apply Z.leb_le. cbn [observe o_now]. apply (cp_exp _ _ _ _ _ _ _ _ _ _ _ _ _ _ C).
@@ -201,33 +234,44 @@ Proof.
     apply strip_In. apply (enumeration_In _ W). congruence.
   - exact (cp_tok _ _ _ _ _ _ _ _ _ _ _ _ _ _ C).
   - apply toks_rel_intro.
-    + intros t. unfold same_total. apply Z.eqb_eq. destruct (N.eq_dec t tok) as [->|Hn].
-      * symmetry. apply (cp_total _ _ _ _ _ _ _ _ _ _ _ _ _ _ C).
-      * rewrite (fp_other _ _ _ _ _ _ _ _ _ _ _ _ _ _ _ P) by exact Hn. reflexivity.
-    + intros t h. unfold transfer_bal. apply Z.eqb_eq. destruct (N.eqb t tok) eqn:E.
-      * apply N.eqb_eq in E. subst t. rewrite (cp_bal _ _ _ _ _ _ _ _ _ _ _ _ _ _ C).
-        unfold recipient_of. destruct k; lia.
-      * apply N.eqb_neq in E. rewrite (fp_other _ _ _ _ _ _ _ _ _ _ _ _ _ _ _ P) by exact E. lia.
-    + intros t o s. unfold fwd_cell. rewrite (fp_now _ _ _ _ _ _ _ _ _ _ _ _ _ _ _ P).
-      rewrite !allowance_data_ad. destruct (N.eqb t tok) eqn:E.
-      * apply N.eqb_eq in E. subst t. cbn [andb]. rewrite (cp_alw _ _ _ _ _ _ _ _ _ _ _ _ _ _ C).
-        destruct (N.eqb o user && N.eqb s (fwd_addr c k)) eqn:Eos; [|apply zz_eqb_refl].
+    + intros t. unfold same_total. apply Z.eqb_eq. change (get_tok st' t) with (get_tokm (toks st') t).
+      rewrite (tp_total _ _ _ _ _ _ _ TP), mid_get. destruct (N.eqb t tok) eqn:E; [|reflexivity].
+      apply N.eqb_eq in E. subst t. symmetry. apply (cp_total _ _ _ _ _ _ _ _ _ _ _ _ _ _ C).
+    + intros t h. apply Z.eqb_eq. change (get_tok st' t) with (get_tokm (toks st') t).
+      rewrite (tp_bal _ _ _ _ _ _ _ TP), mid_get. unfold transfer_delta at 1. destruct (N.eqb t tok) eqn:E.
+      * apply N.eqb_eq in E. subst t. rewrite (cp_bal _ _ _ _ _ _ _ _ _ _ _ _ _ _ C). lia.
+      * lia.
+    + intros t o s. rewrite (fp_now _ _ _ _ _ _ _ _ _ _ _ _ _ _ _ _ P). rewrite !allowance_data_ad.
+      change (get_tok st' t) with (get_tokm (toks st') t).
+      rewrite (tp_alw _ _ _ _ _ _ _ TP), mid_get.
+      assert (Hval : ad (now st) (alw_get (if N.eqb t tok then t1 else get_tok st t) o s) =
+                     fee_value (approval_of k) tok user (fwd_addr c k) fee max exp t o s
+                       (ad (now st) (alw_get (get_tok st t) o s))).
+      { unfold fee_value, is_fee_cell. destruct (N.eqb t tok) eqn:E; cbn [andb]; [|reflexivity].
+        apply N.eqb_eq in E. subst t. rewrite (cp_alw _ _ _ _ _ _ _ _ _ _ _ _ _ _ C).
+        destruct (N.eqb o user && N.eqb s (fwd_addr c k)) eqn:Eos; [|reflexivity].
         apply andb_true_iff in Eos. destruct Eos as [Eo Es]. apply N.eqb_eq in Eo. apply N.eqb_eq in Es. subst o s.
-        fold (need_approve (approval_of k) (ad (now st) (alw_get (get_tok st tok) user (fwd_addr c k))) max).
-        destruct (need_approve _ _ max) eqn:En.
-        -- rewrite zz_eqb_refl. cbn [andb]. apply (cp_auth _ _ _ _ _ _ _ _ _ _ _ _ _ _ C). exact En.
-        -- apply zz_eqb_refl.
-      * cbn [andb]. apply N.eqb_neq in E. rewrite (fp_other _ _ _ _ _ _ _ _ _ _ _ _ _ _ _ P) by exact E.
-        apply zz_eqb_refl.
-  - exact (fp_target _ _ _ _ _ _ _ _ _ _ _ _ _ _ _ P).
-  - apply logs_rel_intro. intros g. rewrite (fp_logs _ _ _ _ _ _ _ _ _ _ _ _ _ _ _ P).
-    destruct (N.eqb g target) eqn:E.
-    + apply N.eqb_eq in E. subst g. rewrite (list_eqb_refl _ logent_eqb_refl). cbn [andb].
-      apply Z.eqb_eq. rewrite (fp_ret _ _ _ _ _ _ _ _ _ _ _ _ _ _ _ P), (fp_logs _ _ _ _ _ _ _ _ _ _ _ _ _ _ _ P).
-      rewrite N.eqb_refl. reflexivity.
-    + apply list_eqb_refl. apply logent_eqb_refl.
-  - apply Z.eqb_eq. cbn [observe o_now]. apply (fp_now _ _ _ _ _ _ _ _ _ _ _ _ _ _ _ P).
-  - apply al_obs_same. apply (fp_al _ _ _ _ _ _ _ _ _ _ _ _ _ _ _ P).
+        reflexivity. }
+      apply orb_true_iff. left.
+      rewrite Hval, zz_eqb_refl. cbn [andb].
+      destruct (is_fee_cell tok user (fwd_addr c k) t o s) eqn:Ec; cbn [andb]; [|reflexivity].
+      unfold is_fee_cell in Ec. apply andb_true_iff in Ec. destruct Ec as [Ec Es]. apply andb_true_iff in Ec.
+      destruct Ec as [Et Eo]. apply N.eqb_eq in Et. apply N.eqb_eq in Eo. apply N.eqb_eq in Es. subst t o s.
+      destruct (fee_need (approval_of k) max (ad (now st) (alw_get (get_tok st tok) user (fwd_addr c k)))) eqn:En; [|reflexivity].
+      apply Htree. rewrite allowance_data_ad. exact En.
+  - destruct (memb target (c_tokens c)).
+    + destruct TL as [T1 [T2 T3]]. split_and.
+      * destruct (tgt_moves c target fn args); [reflexivity|congruence].
+      * apply logs_rel_same. exact T2.
+      * apply Z.eqb_eq. exact T3.
+    + destruct TL as [T1 [T2 T3]]. apply andb_intro; [exact T1|].
+      apply logs_rel_intro. intros g. rewrite T2.
+      destruct (N.eqb g target) eqn:E.
+      * apply N.eqb_eq in E. subst g. rewrite (list_eqb_refl _ logent_eqb_refl). cbn [andb].
+        apply Z.eqb_eq. rewrite T3, T2, N.eqb_refl. reflexivity.
+      * apply list_eqb_refl. apply logent_eqb_refl.
+  - apply Z.eqb_eq. cbn [observe o_now]. apply (fp_now _ _ _ _ _ _ _ _ _ _ _ _ _ _ _ _ P).
+  - apply al_obs_same. apply (fp_al _ _ _ _ _ _ _ _ _ _ _ _ _ _ _ _ P).
 Qed.
 
 Lemma Inv_forward c st st' S k tok fee max exp target fn args user relayer au ret :
@@ -235,7 +279,7 @@ Lemma Inv_forward c st st' S k tok fee max exp target fn args user relayer au re
   forward c st k tok fee max exp target fn args user relayer au = Ok (st', ret) -> Inv st S -> Inv st' S.
 Proof.
   intros Hw H I.
-  destruct (forward_open _ _ _ _ _ _ _ _ _ _ _ _ _ _ _ Hw H) as [t' [ts3 [ent [tks' [Q [Hen [Hb [-> _]]]]]]]].
+  destruct (forward_open _ _ _ _ _ _ _ _ _ _ _ _ _ _ _ Hw H) as [t' [ts3 [tks' [l' [Q [Hen [Hc ->]]]]]]].
   constructor; cbn [al].
   - apply (inv_wf _ _ I).
   - apply (inv_set _ _ I).
@@ -243,11 +287,16 @@ Proof.
     { apply toks_inv_set.
       - intros t. apply (inv_alw _ _ I t).
       - apply (cp_inv _ _ _ _ _ _ _ _ _ _ _ _ _ _ (fq_collect _ _ _ _ _ _ _ _ _ _ _ _ _ _ Q)). apply (inv_alw _ _ I). }
-    exact (target_body_inv _ _ _ _ _ _ _ _ _ _ Hw Hb Hi).
+    exact (target_call_inv _ _ _ _ _ _ _ _ _ _ _ _ Hw Hc Hi).
 Qed.
 
+Definition wf_fwd (c : cfg) (cl : call) : Prop :=
+  match cl with Forward _ _ _ _ _ _ _ _ _ _ _ => wf_call c cl = true | _ => True end.
+Lemma wf_fwd_of c cl : wf_call c cl = true -> wf_fwd c cl.
+Proof. destruct cl; cbn [wf_fwd]; auto. Qed.
+
 Lemma step_ok_mon c st S cl st' ret :
-  wfc c -> wf_call c cl = true -> Inv st S -> step_ok c st cl = Ok (st', ret) ->
+  wfc c -> wf_fwd c cl -> Inv st S -> step_ok c st cl = Ok (st', ret) ->
   exists S', mon_call c S (observe c st) (observe c st') cl ret = (true, S') /\ Inv st' S'.
 Proof.
   intros Hw Hwf I. destruct cl as [n|tok to amt|tok owner spender amt exp au|k tok fee max exp target fn args user relayer au
@@ -314,8 +363,11 @@ Proof.
       * apply Z.eqb_eq. reflexivity.
     + apply Inv_with_tok; [exact I|]. apply (sa_inv _ _ _ _ _ _ _ _ P). apply (inv_alw _ _ I).
   - (* Forward *)
-    intros H. pose proof (forward_spec _ _ _ _ _ _ _ _ _ _ _ _ _ _ _ Hw Hwf H) as P. exists S. split.
-    + f_equal. apply mon_forward_model; [exact P|apply (inv_wf _ _ I)].
+    intros H. destruct (forward_spec _ _ _ _ _ _ _ _ _ _ _ _ _ _ _ Hw Hwf H) as [t1 P]. exists S. split.
+    + f_equal. eapply mon_forward_model; [exact P|apply (inv_wf _ _ I)|].
+      intros Hn. apply approve_under_tree_of_ex.
+      apply (forward_fresh_approval_under_tree c st k tok fee max exp target fn args user relayer au st' ret H).
+      unfold fee_need in Hn. destruct k; exact Hn.
     + eapply Inv_forward; eauto.
   - (* SetTok *)
     destruct (memb operator (c_managers c)) eqn:Em; cbn [guard bind]; [|discriminate].
@@ -354,7 +406,7 @@ Proof.
       * apply toks_rel_intro; intros; rewrite get_tok_with.
         -- apply Z.eqb_eq. destruct (N.eqb t tok) eqn:E; [|reflexivity].
            apply N.eqb_eq in E. subst t. symmetry. exact Ht.
-        -- unfold transfer_bal. destruct (N.eqb t tok) eqn:E; cbn [andb].
+        -- unfold transfer_bal, transfer_delta. destruct (N.eqb t tok) eqn:E; cbn [andb].
            ++ apply N.eqb_eq in E. subst t. rewrite Hb. apply andb_intro; [apply Z.eqb_eq; lia|].
               destruct (N.eqb h (c_fp c)) eqn:Eh; [|reflexivity].
               apply N.eqb_eq in Eh. subst h. apply Z.eqb_refl.
@@ -377,7 +429,7 @@ Proof.
                                |allowed tok operator au|tok recipient operator au].
   4:{ cbn [mon_call snd]. cbn [step_ok] in H. eapply Inv_forward; eauto. }
   all: match type of H with step_ok _ _ ?cl = _ =>
-         destruct (step_ok_mon c st S cl st' ret Hw eq_refl I H) as [S' [Hm I']] end; rewrite Hm; exact I'.
+         destruct (step_ok_mon c st S cl st' ret Hw Logic.I I H) as [S' [Hm I']] end; rewrite Hm; exact I'.
 Qed.
 
 Lemma step_mon c st S cl st' out :
@@ -386,11 +438,11 @@ Lemma step_mon c st S cl st' out :
 Proof.
   intros Hw Hwf I. unfold step. destruct (step_ok c st cl) as [[st1 r]|] eqn:E.
   - intros H. inversion H; subst st' out. clear H.
-    destruct (step_ok_mon _ _ _ _ _ _ Hw Hwf I E) as [S' [Hm I']]. exists S'. split; [|exact I'].
-    unfold mon_step. rewrite Hm. f_equal. cbn [andb].
+    destruct (step_ok_mon _ _ _ _ _ _ Hw (wf_fwd_of _ _ Hwf) I E) as [S' [Hm I']]. exists S'. split; [|exact I'].
+    unfold mon_step. rewrite Hwf. cbn [negb]. rewrite Hm. f_equal. cbn [andb].
     apply al_consistent_model; [apply (inv_wf _ _ I')|apply (inv_set _ _ I')].
   - intros H. inversion H; subst st' out. clear H. exists S. split; [|exact I].
-    unfold mon_step. rewrite obs_eqb_refl. cbn [andb]. f_equal.
+    unfold mon_step. rewrite Hwf. cbn [negb]. rewrite obs_eqb_refl. cbn [andb]. f_equal.
     apply al_consistent_model; [apply (inv_wf _ _ I)|apply (inv_set _ _ I)].
 Qed.
 
@@ -411,5 +463,6 @@ Proof.
   intros c cs Hw Hwf. unfold check, observe_model, diff, mon.
   rewrite obs_eqb_refl, diff_from_model.
   rewrite (al_consistent_model c (init c) []) by (cbn [al init]; first [apply al_wf_0|apply al_set_0]).
+  cbn [observe o_now init now]. rewrite Z.eqb_refl. cbn [andb].
   rewrite (mon_from_model c (init c) [] cs 0%N Hw Hwf (Inv_init c)). reflexivity.
 Qed.
